@@ -206,6 +206,13 @@ def make_base(rng, idx):
         W = rng.choice([3, 4])
         fs, runs = c03.gen_project(rng, idx, W, 2)
         files.update(fs)
+        # a file whose countable lines are exactly one window, shared with a longer file: appending to it / inserting above it changes nothing about that window
+        for lang in ("py", "ts"):
+            ids = [idx * 1000 + 500 + k + (50 if lang == "ts" else 0) for k in range(W)]
+            body = [c03.stmt(lang, k) for k in ids]
+            files["pkg/edge%d.%s" % (idx, lang)] = "%s window-sized module%s\n%s\n" % ("#" if lang == "py" else "//", c03.NON_ASCII, "\n".join(body))
+            head, tail_, ind = ("def holder_%d(alpha, beta):" % idx, "    return alpha", "    ") if lang == "py" else ("function holder_%d(alpha, beta) {" % idx, "  return alpha;\n}", "  ")
+            files["pkg/edge_host%d.%s" % (idx, lang)] = "\n".join([head, ind + c03.stmt(lang, idx * 1000 + 700)] + [ind + b for b in body] + [ind + c03.stmt(lang, idx * 1000 + 701), tail_]) + "\n"
         cfg = {"dry": {"enabled": True, "min_duplicate_lines": W, "min_occurrences": 2}}
         cmds = ["dry"]
     else:
@@ -226,6 +233,8 @@ def make_case(rng, idx):
         seq = [e for e in seq if e not in ("rename", "reindent")] or ["insert"]  # trigger files contain names that rules inspect; hand-written layout
     if base["kind"] in (4, 6):
         seq = [e for e in seq if e != "rename"] or ["insert"]
+    if base["kind"] == 4 and idx % 2 == 0 and "append" not in seq:
+        seq = ["append"] + seq  # growing a file past the window size is the edit that separates 'fits exactly' from 'fits'
     edited = {}
     maps = {}
     flags = {"columns": True, "edits": seq}
